@@ -99,6 +99,8 @@ ENGINES["serve"] = dict(
     branches=["serve.start.empty", "serve.start.other", "serve.start.dns", "serve.l2-burst", "serve.sv6.q.procs1", "serve.sv6.l.procs1", "serve.sv6.q.procsn", "serve.sv6.l.procsn", "serve.sv4.q.procs1", "serve.sv4.l.procs1", "serve.sv4.q.procsn", "serve.sv4.l.procsn", "serve.answered"],
 )
 
+ENGINES["l2frame"] = dict(drv="l2frame", starts=(), trivial=r"=> unparsable$",
+    branches=["l2.chaddr6", "l2.chaddr-other", "l2.yiaddr-zero", "l2.yiaddr-set", "l2.frame", "l2.no-frame"])
 ENGINES["chain"] = dict(drv="chain", starts=("ccfg",), trivial=r"=> drop$", branches=["chain.cfg4.ok", "chain.cfg6.ok", "chain.drop", "chain.send"])
 ENGINES["allocc"] = dict(drv="alloc", starts=("new6", "new4"), trivial=r"$^", branches=["batch", "arace", "afrace", "achurn"], noshrink=True)
 ENGINES["rangec"] = dict(drv="range", starts=("rsetup",), trivial=r"$^", branches=["batch"], noshrink=True)
@@ -236,11 +238,11 @@ PROPS = {
                      "every listener of a protocol is given the one chain LoadPlugins returned (fact F7)"],
     ),
     "C15": dict(
-        engines=[("dispatch4", 6000, 100000), ("sys", 1500, 30000)],
+        engines=[("dispatch4", 6000, 100000), ("sys", 1500, 30000), ("l2frame", 800, 20000)],
         theorems=["C15_holds", "C15_has_interface", "SYS_C15"],
         modules=["CoreDhcp.Props.C15", "CoreDhcp.Props.System"],
         facts=["F5", "F6", "F8"],
-        trusted_base=[TB_CODEC, TB_HOOK, "the kernel delivers IP_PKTINFO when asked (fact F5 checks that listen4 asks exactly when unbound); the link-level send itself (sendEthernet) is not modelled"],
+        trusted_base=[TB_CODEC, TB_HOOK, "the kernel delivers IP_PKTINFO when asked (fact F5 checks that listen4 asks exactly when unbound); the link-level frame is Model/Ethernet.lean, tied by the l2frame engine (the real sendEthernet on the loopback interface presented with a hardware address, the frame read back from a packet socket); gopacket's serialisation and the packet socket are trusted"],
         assumptions=["the listener is bound to an interface or the kernel reported the receiving one; the excluded point (link-level reply with no interface information) dereferences a nil control message in the code and is `panicNoIf` in the model"],
     ),
     "C02": dict(
